@@ -142,7 +142,7 @@ theorem C10_sharing_preserved (cfg : Cfg) (classes : List Bytes) (info : Info) (
     hashed the same way while loading and afterwards, so `array[key]` finds the loaded entry — for every hash function
     and table length. -/
 theorem C10_lookup_after_load (hash : Value → Nat) (addr : Lbl → Nat) (tl : Nat) (k : Value)
-    (hk : ∀ s o, k ≠ .link 6 s o) : foundAfterLoad hash addr tl k = true := by
+    (hk : ∀ s o, k ≠ .link 6 s o) (refiled : Bool) : foundAfterLoad refiled hash addr tl k = true := by
   have h : keyHashAtLoad hash k = keyHashAfter hash addr k := by
     unfold keyHashAtLoad keyHashAfter
     split
@@ -156,14 +156,19 @@ theorem C10_lookup_after_load (hash : Value → Nat) (addr : Lbl → Nat) (tl : 
     (unless that address happens to be a multiple of the table length).  Replayed on the real code on every run
     (`corpus/C10/known-listener-key-lost.json`, signature `roundtrip:lost-key:listener-key`). -/
 theorem C10_known_listener_key_lost (hash : Value → Nat) (addr : Lbl → Nat) (tl : Nat) (s : Bool) (o : Lbl)
-    (ho : o ≠ 0) (ha : addr o % tl ≠ 0) : foundAfterLoad hash addr tl (.link 6 s o) = false := by
+    (ho : o ≠ 0) (ha : addr o % tl ≠ 0) : foundAfterLoad false hash addr tl (.link 6 s o) = false := by
   simp [foundAfterLoad, keyHashAtLoad, keyHashAfter, ho, Nat.zero_mod]
   exact fun h => ha h.symm
 
 /-- in a one-bucket table (and for a null listener) the entry is found -/
 theorem C10_listener_key_one_bucket (hash : Value → Nat) (addr : Lbl → Nat) (s : Bool) (o : Lbl) :
-    foundAfterLoad hash addr 1 (.link 6 s o) = true := by
+    foundAfterLoad false hash addr 1 (.link 6 s o) = true := by
   simp [foundAfterLoad, Nat.mod_one]
+
+/-- with the entries filed again when the archive is closed (`notes/C10-suggested-fix-2.diff`) every key is found -/
+theorem C10_lookup_after_load_refiled (hash : Value → Nat) (addr : Lbl → Nat) (tl : Nat) (k : Value) :
+    foundAfterLoad true hash addr tl k = true := by
+  simp [foundAfterLoad]
 
 /-! ### constant strings and the dictionary of the loading session (`StringDictionary::ArchiveString`) -/
 
